@@ -557,7 +557,29 @@ func (f *Frame) loopTargets(li *loopInfo, cur *State) ([]havocTarget, bool) {
 				if a {
 					all = true
 				}
-			case *ssa.Next, *ssa.Range:
+			case *ssa.Next:
+				// the iterator advances in the loop: its state (keys seen, position,
+				// count) is arbitrary at the loop head, constrained by the invariants
+				itKey := ""
+				if iv, ok := f.vals[x.Iter]; ok && outside(x.Iter) {
+					itKey = iv.T
+				}
+				if x.IsString {
+					c.heapSort["IterPos"] = "(Array Int Int)"
+					c.heapGet(cur, "IterPos", "(Array Int Int)")
+					out = append(out, havocTarget{"IterPos", itKey, "", ""})
+				} else if rng, ok := x.Iter.(*ssa.Range); ok {
+					if mt, ok := rng.X.Type().Underlying().(*types.Map); ok {
+						h := "IterSeen$" + typeKey(mt.Key())
+						c.heapSort[h] = "(Array Int (Array " + c.sortOf(mt.Key()) + " Bool))"
+						c.heapGet(cur, h, c.heapSort[h])
+						out = append(out, havocTarget{h, itKey, "", ""})
+						c.heapSort["IterCount"] = "(Array Int Int)"
+						c.heapGet(cur, "IterCount", "(Array Int Int)")
+						out = append(out, havocTarget{"IterCount", itKey, "", ""})
+					}
+				}
+			case *ssa.Range:
 				out = append(out, havocTarget{"$iter", "", "", ""})
 			}
 		}
@@ -1008,6 +1030,10 @@ func (f *Frame) collectDebug() {
 			case *ssa.Phi:
 				if x.Comment != "" {
 					add(x.Comment, x)
+					// the index of an enclosing range loop by loop ordinal: rangeindex0, rangeindex1, ...
+					if li, ok := f.loops[b]; ok && li != nil && x.Comment == "rangeindex" {
+						add(fmt.Sprintf("rangeindex%d", li.ordinal), x)
+					}
 				}
 			case *ssa.Alloc:
 				if x.Comment != "" {
